@@ -1076,7 +1076,7 @@ enum cc_stat cc_array_sized_zip_iter_remove(CC_ArraySizedZipIter *iter, uint8_t 
  */
 enum cc_stat cc_array_sized_zip_iter_add(CC_ArraySizedZipIter *iter, uint8_t *e1, uint8_t *e2)
 {
-    size_t index = iter->index++;
+    size_t index = iter->index;
     CC_ArraySized  *ar1  = iter->ar1;
     CC_ArraySized  *ar2  = iter->ar2;
 
@@ -1087,6 +1087,7 @@ enum cc_stat cc_array_sized_zip_iter_add(CC_ArraySizedZipIter *iter, uint8_t *e1
     }
     cc_array_sized_add_at(ar1, e1, index);
     cc_array_sized_add_at(ar2, e2, index);
+    iter->index++;
 
     return CC_OK;
 }
